@@ -20,6 +20,9 @@ NEUTRAL = ("from", "into", "try_from", "try_into", "to_string", "is_nan", "is_fi
            "partial_cmp", "cmp", "lt", "le", "gt", "ge", "from_str", "from_str_radix", "parse", "max_value", "min_value", "default", "neg", "not")
 
 
+_depth = [0]
+
+
 def base_ops(F, bodies):
     """{base operation: [(primitive as written, span)]} over the given MIR bodies."""
     out = {}
@@ -36,6 +39,23 @@ def base_ops(F, bodies):
                 if meth not in NEUTRAL:
                     out.setdefault(meth, []).append((m.group(0), c.span))
                 continue
+            # a helper the crate defines on the number type itself (`<i32 as ExactShl>::exact_shl`): what its own body applies is what the
+            # operator applies here; the helper's closures (where a result is verified, e.g. shifted back and compared) are not the operation
+            hm = re.match(r"<(i32|i128|u8|f64) as (?!core::|std::)", nm)
+            if hm:
+                h = None
+                for nm2 in [c.callee()] + sorted(getattr(c, "names", [])):
+                    h = F.fn(nm2)
+                    if h is not None:
+                        break
+                if h is not None and _depth[0] < 2:
+                    _depth[0] += 1
+                    try:
+                        for k, v in base_ops(F, [h]).items():
+                            out.setdefault(k, []).extend((w + " in " + mir.short(h.path), c.span) for w, _sp in v)
+                    finally:
+                        _depth[0] -= 1
+                    continue
             m = re.search(r"<&*(i32|i128|u8|f64) as core::ops::(?:arith|bit)::(\w+)", nm)
             if m and m.group(2) in EXPECTED:
                 out.setdefault(EXPECTED[m.group(2)], []).append((m.group(0) + ">", c.span))
